@@ -25,11 +25,13 @@ func propC11(c *Ctx) {
 	c.ruleC11WalkUp()
 	c.ruleC11CursorSteps("C11-CURSOR-STEPS")
 	c.ruleC11Close()
-	c.ruleC10CopyReset() // the paste pass re-runs the same context resolution on copies
+	c.ruleC10CopyReset()    // the paste pass re-runs the same context resolution on copies
+	c.ruleC10CopyIdentity() // a child is attached whatever other children stand at the same coordinates (copies of one macro directive do)
 	c.ruleOpenForEveryKind("C11-OPEN-FOR-EVERY-KIND")
 	c.rulePlaceWhenComplete("C11-PLACE-WHEN-COMPLETE")
 	c.ruleExplicitFlagWriters("C11-EXPLICIT-FLAG-WRITERS")
 	c.ruleURLChildClasses("C11-URL-CHILD-CLASSES")
+	c.rulePhaseConstructor() // the second placement pass runs for every project: nothing is decided from the root file's text
 	if m := c.E1Base(); m != nil {
 		c.ruleC11Paren(m)
 		c.ruleOpenTransparent(m, "C11-OPEN-TRANSPARENT")
